@@ -245,7 +245,7 @@ def _run_source_variant(args):
 
 # -- unified diff in memory ----------------------------------------------------------------------
 
-def apply_patch_text(sources, patch_text):
+def apply_patch_text(sources, patch_text, skip_failing=False, skipped=None):
     """Apply a unified diff (git format) to {module name: source}; returns the new dict (only changed modules)."""
     out = {}
     files = re.split(r'^diff --git ', patch_text, flags=re.M)[1:]
@@ -306,6 +306,10 @@ def apply_patch_text(sources, patch_text):
                         if found is not None:
                             break
                 if found is None:
+                    if skip_failing:
+                        if skipped is not None:
+                            skipped.append(f'{mod}.py @@ -{start}')
+                        continue
                     raise Unknown(f'hunk for segno/{mod}.py does not apply in memory')
                 pos = found
             lines[pos:pos + len(old)] = new
